@@ -76,9 +76,11 @@ def main():
         print("   UNDECIDED %s at %s: %s" % (i.full_key(), i.site, i.detail))
     if not args.no_evidence and not args.replay:
         write_evidence(pid, args, seed, facts, prog, insts, stats, broken, known_hit, new_viol, time.time() - t0)
+    if new_viol:
+        return 1
     if broken:
         return 2
-    return 1 if new_viol else 0
+    return 0
 
 
 def write_evidence(pid, args, seed, facts, prog, insts, stats, broken, known_hit, new_viol, wall):
